@@ -58,7 +58,7 @@ type Burst struct {
 }
 
 type Label struct {
-	K string `json:"k"` // api msg cancel hret close end chunk chunkerr sprog stall unstall
+	K string `json:"k"` // api msg cancel hret close end chunk chunkerr sprog stall unstall setmode
 	O int    `json:"o"` // op number (api, cancel, close, chunk*)
 	// api
 	Op         string         `json:"op,omitempty"` // subscribe unsubscribe register unregister publish call callprog
@@ -77,6 +77,8 @@ type Label struct {
 	Tag int64  `json:"tag,omitempty"`
 	// chunk
 	Final bool `json:"final,omitempty"`
+	// setmode
+	Mode string `json:"mode,omitempty"`
 }
 
 type Ref struct {
@@ -945,6 +947,14 @@ func (d *driver) exec(l Label) {
 		d.startClose(l.O)
 	case "end":
 		d.end()
+	case "setmode":
+		// a configuration call of the application, between its other calls
+		err := d.c.SetCallCancelMode(l.Mode)
+		r := "ok"
+		if err != nil {
+			r = "error"
+		}
+		d.log(Obs{E: "setmode", Mode: l.Mode, R: r})
 	case "stall":
 		d.setStall(true)
 	case "unstall":
